@@ -119,8 +119,10 @@ def option_provenance(ctx, rule='A6'):
     none_defs = [d for _, v, d in defs if norm(v) == 'mapping[None]']
     if none_defs:
         guards.check_guarded(ctx, rule, fn, none_defs,
-                             lambda atom, truth: truth is True and isinstance(atom, ast.Compare) and
-                             isinstance(atom.ops[0], ast.NotIn) and 'src_originating_node' in norm(atom.left),
+                             lambda atom, truth: isinstance(atom, ast.Compare) and len(atom.ops) == 1 and
+                             ((isinstance(atom.ops[0], ast.NotIn) and truth is True) or
+                              (isinstance(atom.ops[0], ast.In) and truth is False)) and
+                             'src_originating_node' in norm(atom.left),
                              set(), 'none-entry-only-if-inactive',
                              'mapping[None] is used only when the originating node of the source choice is absent '
                              'from the source architecture (choice inactive)')
